@@ -153,6 +153,26 @@ class Extractor(Translator):
         return self.request(fid)
 
 
+    # ---------------------------------------------------------------- dropped statements
+    STREAM_RE = re.compile(r"std::(__cxx11::)?basic_(o|i|io)?(string)?stream<|std::basic_ostream<")
+
+    def droppable(self, s):
+        s2 = s
+        while s2.get("kind") in ("ExprWithCleanups", "ParenExpr", "ImplicitCastExpr"):
+            s2 = s2["inner"][0]
+        if s2.get("kind") == "CXXOperatorCallExpr" or s2.get("kind") == "CXXMemberCallExpr":
+            t = self.ast.E.get(s2.get("id"), {}).get("type", "")
+            if self.STREAM_RE.match(t.replace("const ", "")):
+                return "stream-formatting statement"
+        return None
+
+    def vardecl(self, d):
+        info = self.ast.D.get(d["id"], {})
+        if self.STREAM_RE.match(info.get("type", "")):
+            self.rule("dropped:string-stream variable")
+            return []
+        return super().vardecl(d)
+
     # ---------------------------------------------------------------- std models
     def model_record_fields(self, canon):
         ext = self.opts.get("ext_records", {})
